@@ -583,10 +583,14 @@ fn domains(name: &str) -> Vec<(&'static str, i128, i128)> {
         ("sorted", c) => {
             let sw = sorted_cfg(c).sample_width as u32;
             let fit = ("fit", 0i128, (1i128 << sw.min(64)) - 1);
+            // "ow": the whole range of one in-block offset (offset_width bits), so that the offsets stored in a
+            // block reach the top bit of the offset field
+            let ow = sorted_cfg(c).offset_width as u32;
+            let owd = ("ow", 0i128, (1i128 << ow.min(64)) - 1);
             if sw < 64 {
-                vec![fit, ("u64", 0, u64::MAX as i128), ("u20", 0, (1 << 20) - 1)]
+                vec![fit, ("u64", 0, u64::MAX as i128), ("u20", 0, (1 << 20) - 1), owd]
             } else {
-                vec![fit, ("u20", 0, (1 << 20) - 1)]
+                vec![fit, ("u20", 0, (1 << 20) - 1), owd]
             }
         }
         _ => vec![],
